@@ -46,6 +46,11 @@ func (x *Exec) calleeNames(c *ssa.CallCommon) []string {
 			out = append(out, fn.String())
 		}
 	default:
+		if mc := x.staticClosure(c); mc != nil {
+			if fn, ok := mc.Fn.(*ssa.Function); ok {
+				out = append(out, fn.String())
+			}
+		}
 		out = append(out, "dynamic")
 		// calling a func-typed field or variable: name it
 		if u, ok := c.Value.(*ssa.UnOp); ok {
@@ -98,7 +103,7 @@ func (x *Exec) findContract(c *ssa.CallCommon) *FuncContract {
 			return ctr
 		}
 	}
-	if mc, ok := c.Value.(*ssa.MakeClosure); ok {
+	if mc := x.staticClosure(c); mc != nil {
 		if f, ok := mc.Fn.(*ssa.Function); ok {
 			if ctr := x.ck.contractOf(f); ctr != nil {
 				return ctr
@@ -386,6 +391,10 @@ func (x *Exec) paramNames(ctr *FuncContract, c *ssa.CallCommon) []string {
 		f = v
 	case *ssa.MakeClosure:
 		f, _ = v.Fn.(*ssa.Function)
+	default:
+		if mc := x.staticClosure(c); mc != nil {
+			f, _ = mc.Fn.(*ssa.Function)
+		}
 	}
 	var out []string
 	if f != nil && !c.IsInvoke() {
@@ -1335,4 +1344,47 @@ func (x *Exec) havocAny(st *State, what string, pkg *ssa.Package, olderOnly bool
 			}
 		}
 	}
+}
+
+// staticClosure resolves a call through a local variable that is assigned a function literal exactly once
+// (slot := func(..) {..}; slot(i)) to that literal.
+func (x *Exec) staticClosure(c *ssa.CallCommon) *ssa.MakeClosure {
+	if c.IsInvoke() {
+		return nil
+	}
+	if mc, ok := c.Value.(*ssa.MakeClosure); ok {
+		return mc
+	}
+	u, ok := c.Value.(*ssa.UnOp)
+	if !ok {
+		return nil
+	}
+	a, ok := u.X.(*ssa.Alloc)
+	if !ok {
+		return nil
+	}
+	if x.closureOf == nil {
+		x.closureOf = map[*ssa.Alloc]*ssa.MakeClosure{}
+		stores := map[*ssa.Alloc]int{}
+		for _, b := range x.fn.Blocks {
+			for _, ins := range b.Instrs {
+				if st, ok := ins.(*ssa.Store); ok {
+					if al, ok := st.Addr.(*ssa.Alloc); ok {
+						stores[al]++
+						if mc, ok := st.Val.(*ssa.MakeClosure); ok {
+							x.closureOf[al] = mc
+						} else {
+							x.closureOf[al] = nil
+						}
+					}
+				}
+			}
+		}
+		for al, n := range stores {
+			if n != 1 {
+				delete(x.closureOf, al)
+			}
+		}
+	}
+	return x.closureOf[a]
 }
